@@ -104,6 +104,13 @@ theorem pres_fireD (d) : Pres (fun s => fireD s d) := by
     · exact h.plain (e := .dfired d) (fun ph => by cases ph <;> rfl) rfl rfl
     · exact pres_contLoop _ _ L (h.plain (e := .dfired d) (fun ph => by cases ph <;> rfl) rfl rfl)
 
+theorem pres_fireDIn (d) : Pres (fun s => fireDIn s d) := by
+  intro s L h
+  simp only [fireDIn]
+  split
+  · exact h.plain (e := .already d) (fun ph => by cases ph <;> rfl) rfl rfl
+  · exact h.plain (e := .dfired d) (fun ph => by cases ph <;> rfl) rfl rfl
+
 theorem get_set (s : St) (ph l) : (s.set ph l).get ph = l := by cases ph <;> rfl
 theorem get_set_ne (s : St) {ph ph'} (l) (h : ph' ≠ ph) : (s.set ph l).get ph' = s.get ph' := by
   cases ph <;> cases ph' <;> first | rfl | exact absurd rfl h
@@ -144,7 +151,9 @@ theorem pres_step_nonadd (op : Op) (h : ∀ ph k, op ≠ .add ph k) : Pres (fun 
   | fireD d =>
     simp only [step]; split
     · exact pres_fireD d s L hk
-    · exact hk.plain (e := .ignored) (fun ph => get_emit _ _ _) rfl rfl
+    · split
+      · exact hk.plain (e := .ignored) (fun ph => get_emit _ _ _) rfl rfl
+      · exact pres_fireDIn d s L hk
   | ret r =>
     simp only [step]
     split
